@@ -17,6 +17,8 @@ def run(tier, seed):
     extra = [relay.suite_relay(tier, seed, "sql", n=20 if tier == "quick" else 120, label="ack", pid="C06"),
              relay.suite_relay(tier, seed, "kv", n=20 if tier == "quick" else 120, label="ack", pid="C06"),
              relay.suite_concurrent_dup(tier, seed, ("sql", "kv"))]
+    from .. import extra as _x
+    extra = extra + [_x.suite_multi_d_tags(tier, seed)]
     return common.drop_foreign(sqlm.suites_c06(tier, seed) + kvb.suites_c06(tier, seed) + extra, "C06")
 
 
